@@ -190,6 +190,22 @@ class Model:
                     w[nid] = opt["xy".index(e[2])]
                     rec(i + 1, p / n, w)
             else:
+                try:
+                    v = self._apply(k, e, V)
+                except (ZeroDivisionError, OverflowError) as exc:
+                    # the exception escapes from sampling: an outcome of the attempt
+                    out.append((p, ("EXC", type(exc).__name__)))
+                    w.pop(nid, None)
+                    return
+                w[nid] = v
+                rec(i + 1, p, w)
+            w.pop(nid, None)
+
+        rec(0, Fraction(1), {})
+        return out
+
+    @staticmethod
+    def _apply(k, e, V):
                 if k == "bin":
                     a, b = V(e[2]), V(e[3])
                     op = e[1]
@@ -221,12 +237,7 @@ class Model:
                     v = V(e[1])[V(e[2])]
                 else:
                     raise ValueError(k)
-                w[nid] = v
-                rec(i + 1, p, w)
-            w.pop(nid, None)
-
-        rec(0, Fraction(1), {})
-        return out
+                return v
 
     def _holds(self, cond, w):
         op, a, b = cond
@@ -260,6 +271,10 @@ class Model:
                 if w is None:
                     rej += pw
                     continue
+                if isinstance(w, tuple) and w[0] == "EXC":
+                    s = ("EXCEPTION", w[1])
+                    acc[s] = acc.get(s, 0) + pw
+                    continue
                 ok = all(self._holds(c, w) for c in hard) and all(
                     self._holds(c, w) for (p, c), on in zip(soft, mask) if on
                 )
@@ -278,7 +293,7 @@ class Model:
         for pS, acc, rej in self.attempt_tables():
             for j in range(1, k + 1):
                 for s, ps in acc.items():
-                    key = (s, j)
+                    key = s if s[0] == "EXCEPTION" else (s, j)
                     law[key] = law.get(key, 0) + pS * rej ** (j - 1) * ps
             if rej:
                 law[REJECT] = law.get(REJECT, 0) + pS * rej**k
